@@ -304,6 +304,13 @@ pub fn run(args: &Args, rec: &mut Recorder) {
                             }
                         }
                     }
+                    if let Some((a, b)) = crate::gram::first_inexact_float(&flat, &toks) {
+                        rec.violation(
+                            "float value in IF_DATA changed by load+write",
+                            &format!("`{a}` written as `{b}`"),
+                            witness_text("C18", &text, &note),
+                        );
+                    }
                     rec.add("tokens_compared", toks.len() as u64);
                 }
                 Err(d) => {
